@@ -541,3 +541,111 @@ Proof.
   rewrite HG, getM_maps by lia. unfold f. rewrite sumT_sumR. cbn [add ROps]. f_equal.
   apply sumR_map_ext. intros [row n] _. reflexivity.
 Qed.
+
+(* ------------------------------------------------------------------ reconstructed visibilities = T s *)
+Lemma fold_left_pair {A} (p q : A -> R) l a b :
+  fold_left (fun (acc : R * R) x => (fst acc + p x, snd acc + q x)) l (a, b) = (a + sumR (map p l), b + sumR (map q l)).
+Proof. revert a b; induction l as [|x l IH]; intros a b; cbn [fold_left map sumR fst snd]; [f_equal; ring|]. rewrite IH. f_equal; ring. Qed.
+Lemma recon_is_matvec (TM : list (list (R * R))) (s : list R) :
+  @recon_visibilities ROps TM s = @recon_spec ROps TM s.
+Proof.
+  unfold recon_visibilities, recon_spec, cmatvec. apply map_ext. intros row.
+  unfold czero. rewrite zero_R. cbn [add mul ROps].
+  rewrite (fold_left_pair (fun st : R * (R * R) => fst st * fst (snd st)) (fun st : R * (R * R) => fst st * snd (snd st))).
+  unfold csum. rewrite !sumT_sumR, combine_map_r, !map_map. unfold cx in *. change (T ROps) with R in *.
+  rewrite (combine_swap row s), !map_map. cbn [fst snd].
+  f_equal; rewrite Rplus_0_l; apply sumR_map_ext; intros st _; unfold cmul, ofre; cbn [fst snd sub add mul ROps]; rewrite zero_R;
+    unfold cx in *; change (T ROps) with R in *; ring.
+Qed.
+
+(* ------------------------------------------------------------------ the grid of unmasked pixel centres *)
+Lemma filter_flat_map {A B} (p : B -> bool) (f : A -> list B) l : filter p (flat_map f l) = flat_map (fun a => filter p (f a)) l.
+Proof. induction l as [|a l IH]; cbn [flat_map filter]; auto. rewrite filter_app, IH. reflexivity. Qed.
+Lemma map_flat_map {A B C} (g : B -> C) (f : A -> list B) l : map g (flat_map f l) = flat_map (fun a => map g (f a)) l.
+Proof. induction l as [|a l IH]; cbn [flat_map map]; auto. rewrite map_app, IH. reflexivity. Qed.
+Lemma row_scan {C} (Pf : nat * nat -> C) (m : mask) r l :
+  map Pf (filter (fun rc : nat * nat => negb (nth (snd rc) (nth (fst rc) m []) true)) (map (fun c => (r, c)) l))
+  = flat_map (fun c => if nth c (nth r m []) true then [] else [Pf (r, c)]) l.
+Proof.
+  induction l as [|c l IH]; cbn [map filter flat_map fst snd]; auto.
+  destruct (nth c (nth r m []) true); cbn [negb map app]; rewrite IH; reflexivity.
+Qed.
+Lemma scan_is_filter {C} (Pf : nat * nat -> C) (m : mask) : rectn (Wn m) m = true ->
+  flat_map (fun yr : nat * list bool => flat_map (fun xb : nat * bool => if (snd xb : bool) then [] else [Pf (fst yr, fst xb)]) (enum (snd yr))) (enum m)
+  = map Pf (filter (fun rc : nat * nat => negb (nth (snd rc) (nth (fst rc) m []) true))
+                   (flat_map (fun r => map (fun c => (r, c)) (seq 0 (Wn m))) (seq 0 (Hn m)))).
+Proof.
+  intros Hr. rewrite filter_flat_map, map_flat_map.
+  rewrite (enum_seq [] m), flat_map_map. apply flat_map_ext_in. intros r Hin. apply in_seq in Hin. cbn [fst snd].
+  rewrite row_scan. rewrite (enum_seq true (nth r m [])), flat_map_map. cbn [fst snd].
+  rewrite (rectn_length (Wn m) m (nth r m []) Hr) by (apply nth_In; unfold Hn in Hin; lia). reflexivity.
+Qed.
+Lemma scales_ok_R sy sx : @scales_ok ROps sy sx = true -> sy <> 0 /\ sx <> 0.
+Proof.
+  unfold scales_ok. cbn. intros H. apply andb_true_iff in H. destruct H as [H1 H2].
+  apply negb_true_iff in H1, H2. apply Reqb_false in H1, H2. split; assumption.
+Qed.
+Lemma grid_is_centres (pi_ : R) (G : @geom ROps) : rectn (Wn (g_mask G)) (g_mask G) = true -> @scales_ok ROps (g_sy G) (g_sx G) = true ->
+  @grid_radians ROps pi_ G = @centres_spec ROps pi_ G.
+Proof.
+  intros Hr Hs. destruct (scales_ok_R _ _ Hs) as [Hy Hx]. unfold grid_radians, grid_slim, centres_spec.
+  etransitivity.
+  { apply f_equal. apply (scan_is_filter (fun rc : nat * nat =>
+     (mul ROps (opp ROps (sub ROps (ofNat (fst rc)) (add ROps (div ROps (ofZ ROps (Z.of_nat (Hn (g_mask G)) - 1)) two) (div ROps (g_oy G) (g_sy G))))) (g_sy G),
+      mul ROps (sub ROps (ofNat (snd rc)) (sub ROps (div ROps (ofZ ROps (Z.of_nat (Wn (g_mask G)) - 1)) two) (div ROps (g_ox G) (g_sx G)))) (g_sx G)))
+     (g_mask G) Hr). }
+  rewrite map_map. apply map_ext. intros [r c]. cbn [fst snd]. unfold to_rad, two, ofNat. cbn [add sub mul div opp ofZ ROps].
+  f_equal; f_equal; f_equal; field; assumption.
+Qed.
+
+(* ------------------------------------------------------------------ whole transformed matrix; TransformerDFT *)
+Lemma tmm_jit_spec P (M : list (list R)) (grid uv : list (R * R)) :
+  @tmm_jit ROps P M grid uv = @tmm_spec ROps P M grid uv.
+Proof.
+  unfold tmm_jit, tmm_spec. f_equal. apply map_ext. intros j.
+  rewrite !scatter_dir_nz_same. apply visibilities_formula.
+Qed.
+Lemma preload_table_rect (f : R -> R) (grid uv : list (R * R)) : rectn (length uv) (@preload_table ROps f grid uv) = true.
+Proof.
+  unfold rectn, preload_table. apply forallb_forall. intros r Hr. apply in_map_iff in Hr. destruct Hr as [g [<- _]].
+  rewrite map_length. apply Nat.eqb_refl.
+Qed.
+Lemma tmm_preload_spec P (M : list (list R)) (grid uv : list (R * R)) :
+  @tmm_via_preload ROps (length uv) P M (@preload_real ROps grid uv) (@preload_imag ROps grid uv) = @tmm_spec ROps P M grid uv.
+Proof.
+  unfold tmm_via_preload, tmm_spec. f_equal. apply map_ext. intros j.
+  rewrite !scatter_tab_nz_same by apply preload_table_rect.
+  rewrite <- visibilities_formula, <- preload_equivalent. reflexivity.
+Qed.
+
+Section Class.
+  Variable pi_ : R.
+  Variable G : @geom ROps.
+  Hypothesis Hrect : rectn (Wn (g_mask G)) (g_mask G) = true.
+  Hypothesis Hscal : @scales_ok ROps (g_sy G) (g_sx G) = true.
+
+  Lemma tr_visibilities_spec uv preload (img : list R) :
+    @tr_visibilities ROps pi_ G uv preload img = @dft_spec ROps img (@centres_spec ROps pi_ G) uv.
+  Proof.
+    unfold tr_visibilities. rewrite (grid_is_centres pi_ G Hrect Hscal).
+    destruct preload; [rewrite preload_equivalent|]; apply visibilities_formula.
+  Qed.
+  Lemma tr_image_spec uv (vis : list (R * R)) :
+    @tr_image ROps pi_ G uv vis = Ok (@adjoint_re_spec ROps (@centres_spec ROps pi_ G) uv vis).
+  Proof. unfold tr_image. rewrite (grid_is_centres pi_ G Hrect Hscal). apply image_is_adjoint. Qed.
+  Lemma tr_mapping_matrix_spec uv preload P (M : list (list R)) :
+    @tr_mapping_matrix ROps pi_ G uv preload P M = @tmm_spec ROps P M (@centres_spec ROps pi_ G) uv.
+  Proof.
+    unfold tr_mapping_matrix. rewrite (grid_is_centres pi_ G Hrect Hscal).
+    destruct preload; [apply tmm_preload_spec|apply tmm_jit_spec].
+  Qed.
+End Class.
+
+(* column j of the specification matrix is the operator applied to column j *)
+Lemma tmm_spec_column P (M : list (list R)) (grid uv : list (R * R)) j : (j < P)%nat ->
+  map (fun row => nth j row (@czero ROps)) (@tmm_spec ROps P M grid uv) = @dft_spec ROps (@column ROps M j) grid uv.
+Proof.
+  intros Hj. unfold tmm_spec.
+  apply (from_columns_map_column (@czero ROps) (length uv) P (fun j0 => @dft_spec ROps (@column ROps M j0) grid uv) j Hj).
+  unfold dft_spec. apply map_length.
+Qed.
